@@ -425,3 +425,13 @@ also15("C09", "every assignment that differs from the one in effect is published
 also15("C11", "once the new membership is recorded as the one in effect no path returns without announcing it.")
 also15("C16", "an observer's counters are written only by their own methods; the lag is computed under the nil test of the high-seqNo query's own error.")
 also15("C20", "the context an operation waits under is structurally the one WithTimeout/WithDeadline returned or a child of it — not a context another function hands back for it.")
+
+
+def also16(pid, text):
+    t, x, r = CLAIMS[pid]
+    CLAIMS[pid] = (t, x + " ALSO DECIDED (fifteenth seeded round): " + text, r)
+
+
+also16("C04", "the new range is in force before the first stream of the new assignment is requested.")
+also16("C10", "no topic of the event bus has two once-only subscriptions (the listener subscribed after them would be dropped).")
+also16("C18", "version fields are stored only where a version is built; nothing in the parser narrows an integer and every numeric field of the version is as wide as int.")
